@@ -190,7 +190,7 @@ func init() {
 }
 
 func init() {
-	register(&CheckDef{ID: "C13", Level: "model_checking", Timeout: [2]int{700, 1500},
+	register(&CheckDef{ID: "C13", Level: "model_checking", Timeout: [2]int{700, 1500}, SolverMs: 120000,
 		Assumptions: []string{"input stream model zzMemReader; bufio interpreted (ReadSlice's bytes.IndexByte is a first-match intrinsic)", "values range over printable ASCII without < > & = and without the delimiting quote character (the other quote is allowed)"},
 		Bounds: map[string]interface{}{"packets": "one rdf:Description with 8 properties (tiff:Make/Model/ImageWidth/Orientation, xmp:CreatorTool/Label/Rating, one foreign), attribute form with both quote characters and 3 junk bytes before the root, element form, dc:creator rdf:Seq with 3 items", "value_lengths": "1, 4, 9 bytes (attribute form), 1, 4, 6 (element form), 3/1/1 digits (numbers); long values: 43 lengths between 60 and 1024 around every look-ahead step (120..130, 250..258, 508..514, 762..770, 1019..1024) in 4 serialisations, first and last two bytes arbitrary, the filler concrete",
 			"white_space": "every slot between tokens (before/after attributes, around '=', before '>' and '/>', between tags) holds 0..2 arbitrary characters of {blank, tab, CR, LF}; concrete runs of 28 lengths between 100 and 512 (around the 128-byte steps) between attributes, between elements and between the structural tags",
